@@ -291,8 +291,8 @@ Proof. exact cast3_int. Qed.
 Print Assumptions C14_cast_3d_indexes_fit.
 
 (* What stays outside the theorems: floating-point rounding (the walk of the float instance is observed, and the budget
-   rule makes C14_cast_walk independent of the values of the crossing parameters; in floating point the parameter stored
-   after the last step of an axis may round to +inf when |e_i - o_i| is subnormal — it is never compared, see above),
+   rule makes C14_cast_walk independent of the values of the crossing parameters; the parameter stored after the last
+   step of an axis is never compared, see above),
    the coincident case o = e (one cell, no step; trivial in the model: ncells = 1), and casts on a caster whose crossing
    parameters were advanced by an earlier cast() (operation K, outside the property). *)
 
